@@ -335,6 +335,8 @@ class Lib:
                 return Num(seq_len(base))
             if attr == 'shape':
                 return TupleV([Num(seq_len(base))])
+            if attr == 'ndim':
+                return Num(1)
             if attr == 'dtype':
                 return OpaqueV(fresh('dtype', Opaque), 'dtype')
             return LibRef('seq.' + attr, base)
@@ -483,6 +485,9 @@ class Lib:
         if isinstance(base, EntryRef) and isinstance(key, StrV):
             self.entry_set(run, base, key.s, v)
             return None
+        if isinstance(base, MatV):
+            from .liblinalg import mat_setitem
+            return mat_setitem(self, run, base, key, v)
         raise Unsupported('item store %r[%r]' % (base, key))
 
     # --------------------------------------------------------------------------------- operators
@@ -577,7 +582,7 @@ class Lib:
         if op == 'Sub':
             return Num(x - y)
         if op == 'Mult':
-            return Num(x * y)
+            return Num(T.rmul(x, y))
         if op == 'Div':
             if not run.spec_mode:
                 run.emit('safe.div', y != 0, 'division by non-zero')
